@@ -513,6 +513,7 @@ func main() {
 	{
 		t1 := time.Now()
 		targetedStage(scratch)
+		floodStage(scratch)
 		res.Extra = map[string]interface{}{"targeted_s": time.Since(t1).Seconds()}
 	}
 
@@ -725,6 +726,50 @@ func targetedStage(scratch string) {
 						}
 						reported[key]++
 						violateIn("targeted:"+cfg.Kind, src, cfg, "targeted:"+f.name+"/"+pl.name, fd)
+					}
+				}
+			}
+		}
+	}
+}
+
+// floodStage: inputs that make the scanner or the parser report MANY errors at one place — inside the first
+// token (which NewParser scans in its constructor, outside ParseFile's recover), inside a later token, in a
+// module body — with counts around the parser's error cap (10). Added after seeded change C04-m6 (a cap on
+// scanner errors whose bailout panic escaped from NewParser) was not found by the mutation fuzzer.
+func floodStage(scratch string) {
+	dir := scratch + "/flood"
+	_ = os.MkdirAll(dir, 0o700)
+	env := NewEnv(dir)
+	bad := []string{"\x00", "\xff", "\xef\xbb\xbf", "\x80", "\x01"}
+	wrap := []struct{ name, open, close string }{
+		{"string", "\"", "\""}, {"raw-string", "`", "`"}, {"char", "'", "'"}, {"block-comment", "/*", "*/ a := 1"},
+		{"line-comment", "//", "\na := 1"}, {"bare", "", ""}, {"bare-then-code", "", " a := 1"}, {"unterminated-string", "\"", ""},
+		{"unterminated-comment", "/*", ""}, {"illegal-punct", "", "@"},
+	}
+	reported := map[string]int{}
+	for _, b := range bad {
+		for _, w := range wrap {
+			for _, k := range []int{1, 9, 10, 11, 12, 13, 14, 40} {
+				core := w.open + strings.Repeat(b, k) + w.close
+				for _, pl := range []struct{ name, text string }{{"first-token", core}, {"first-token-newline", core + "\n"},
+					{"after-statement", "x := 1\n" + core}, {"after-import", "m := import(\"m1\")\n" + core}, {"operand", "x := " + core},
+					{"many-statements", strings.Repeat(core+"\n", 3)}} {
+					for _, cfg := range []Config{{Kind: "bare", Src: 1}, {Kind: "script", Src: 1}, {Kind: "bare-body", Src: 1},
+						{Kind: "srcmod-body", Src: 1}, {Kind: "fileimp-body", Src: 1}} {
+						src := []byte(pl.text)
+						finds, _ := env.Eval(src, cfg, false)
+						res.Evaluations++
+						res.Count("flood:"+cfg.Kind, w.name+"/"+pl.name+"/"+fmt.Sprint(k)+"/"+b+"/"+cfg.String(), true)
+						res.Dist("flood:" + w.name)
+						for _, fd := range finds {
+							key := fd.Sig + "|" + cfg.Kind
+							if reported[key] >= 1 {
+								continue
+							}
+							reported[key]++
+							violateIn("flood:"+cfg.Kind, src, cfg, "flood:"+w.name+"/"+pl.name, fd)
+						}
 					}
 				}
 			}
